@@ -2338,3 +2338,225 @@ def _mk_clean_text(n):
 
 for _n in (8, 9, 10):
     _mk_clean_text(_n)
+
+
+# ------------------------------------------------------------------------------------------------
+# C07 (persistence half): MemfsFile::{write, flush, sync, drop} against an abstract Memfs store
+# ------------------------------------------------------------------------------------------------
+class StoreM:
+    """What a MemfsFile handle can observe of its Memfs through the write guard: whether the entry for
+    its path exists and the stored file (if any).  Both presence flags are symbolic."""
+
+    def __init__(self, has_entry, has_file, stored):
+        self.has_entry, self.has_file, self.stored = has_entry, has_file, stored  # stored: BoxRef(Adt MemfsFile)
+
+
+def make_persist_models():
+    def m_write_guard(ex, st, args, callee, ty):
+        return M._obj(ex, st, args[0])
+
+    def m_contains_entry(ex, st, args, callee, ty):
+        return M._obj(ex, st, args[0]).has_entry
+
+    def m_get_file_mut(ex, st, args, callee, ty):
+        s = M._obj(ex, st, args[0])
+        if ex.decide(st, s.has_file):
+            return M.opt_some(ex, s.stored)
+        return M.opt_none(ex)
+
+    def m_clone_from(ex, st, args, callee, ty):
+        dst, src = M._obj(ex, st, args[0]), M._obj(ex, st, args[1])
+        dst.items = list(src.items)
+        return M.UNIT
+
+    def m_vec_write(ex, st, args, callee, ty):
+        v, buf = M._obj(ex, st, args[0]), M._obj(ex, st, args[1])
+        v.items.extend(buf.items)
+        return Adt("Result", 0, "Ok", [BV(64, False, len(buf.items))])
+
+    def m_vec_clear(ex, st, args, callee, ty):
+        M._obj(ex, st, args[0]).items = []
+        return M.UNIT
+
+    def m_vec_is_empty(ex, st, args, callee, ty):
+        return B(len(M._obj(ex, st, args[0]).items) == 0)
+
+    def m_vec_len(ex, st, args, callee, ty):
+        return BV(64, False, len(M._obj(ex, st, args[0]).items))
+
+    def m_opaque(ex, st, args, callee, ty):
+        return Adt("opaque", None, callee.split("::")[-1][:20], [])
+
+    def m_deref(ex, st, args, callee, ty):
+        return M._last_ref(ex, st, args[0]) if isinstance(args[0], (Ref, BoxRef)) else BoxRef(args[0])
+
+    return [
+        (rx(r"^(?:memfs::vfs::)?Memfs::write_guard$"), m_write_guard),
+        (rx(r"^(?:memfs::vfs::)?Memfs::read_guard$"), m_write_guard),
+        (rx(r"^MemfsGuard::<'_>::contains_entry$"), m_contains_entry),
+        (rx(r"^MemfsGuard::<'_>::get_file_mut$"), m_get_file_mut),
+        (rx(r"^<Vec<u8> as Clone>::clone_from$"), m_clone_from),
+        (rx(r"^<Vec<u8> as (?:std::io::)?Write>::write$"), m_vec_write),
+        (rx(r"^Vec::<u8>::clear$"), m_vec_clear),
+        (rx(r"^Vec::<u8>::is_empty$"), m_vec_is_empty),
+        (rx(r"^Vec::<u8>::len$"), m_vec_len),
+        (rx(r"^<PathBuf as Deref>::deref$"), m_deref),
+        (rx(r"^Path::display$"), m_opaque),
+        (rx(r"^core::fmt::rt::Argument::<'_>::new_display::<.*>$"), m_opaque),
+        (rx(r"^Arguments::<'_>::new::<.*>$"), m_opaque),
+        (rx(r"^std::fmt::format$"), m_opaque),
+        (rx(r"^must_use::<String>$"), m_opaque),
+        (rx(r"^std::io::Error::new::<.*>$"), m_opaque),
+    ]
+
+
+PERSIST_INLINE = [
+    (rx(r"^(?:memfs::file::)?MemfsFile::sync$"), lambda mir, c, m: mir.get(r"^fn memfs::file::<impl at src/sys/fs/memfs/file\.rs[^>]*>::sync\(")),
+]
+
+
+def run_persist(ctx, prop, max_ops, max_chunk):
+    import itertools
+    t0 = time.time()
+    solver = ctx.solver("c07_persist")
+    ex = new_executor(ctx, solver, make_persist_models(), PERSIST_INLINE, max_block_visits=8)
+    f_write = ctx.mir.get(r"^fn memfs::file::<impl at src/sys/fs/memfs/file\.rs[^>]*>::write\(_1: &mut memfs::file::MemfsFile, _2: &\[u8\]\)")
+    f_flush = ctx.mir.get(r"^fn memfs::file::<impl at src/sys/fs/memfs/file\.rs[^>]*>::flush\(")
+    f_drop = ctx.mir.get(r"^fn memfs::file::<impl at src/sys/fs/memfs/file\.rs[^>]*>::drop\(")
+    ob = Obl()
+    unit = dict(status="pass", failures=[])
+    solver.declare("has_entry", "Bool")
+    solver.declare("has_file", "Bool")
+    ops_alphabet = ["F"] + ["W%d" % i for i in range(0, max_chunk + 1)]
+    nbytes = 0
+    shapes = []
+    for n in range(0, max_ops + 1):
+        shapes += list(itertools.product(ops_alphabet, repeat=n))
+    for existing in (0, 1):  # write handle (truncating) / append handle with one existing byte
+        for shape in shapes:
+            sid = "p%d_%s" % (existing, "".join(shape))
+            old = []
+            for i in range(max(existing, 1)):
+                nm = "%s_old%d" % (sid, i)
+                solver.declare(nm, "(_ BitVec 8)")
+                old.append(BV(8, False, nm))
+            stored = BoxRef(Adt("MemfsFile", None, None, [BV(64, False, 0), M.VecM(old), M.opt_none(ex), M.opt_none(ex)]))
+            store = StoreM(B("has_entry"), B("has_file"), stored)
+            init = list(old) if existing else []
+            handle = BoxRef(Adt("MemfsFile", None, None, [BV(64, False, len(init)), M.VecM(init),
+                                                           M.opt_some(ex, M.SStr([BV(32, False, ord("/")), BV(32, False, ord("f"))])),
+                                                           M.opt_some(ex, store)]))
+            chunks = []
+            for oi, op in enumerate(shape):
+                if op.startswith("W"):
+                    bs = []
+                    for j in range(int(op[1:])):
+                        nm = "%s_b%d_%d" % (sid, oi, j)
+                        solver.declare(nm, "(_ BitVec 8)")
+                        bs.append(BV(8, False, nm))
+                    chunks.append(bs)
+                else:
+                    chunks.append(None)
+            seq = list(shape) + ["D"]
+
+            def on_path(st, seq=seq, chunks=chunks, init=init, old=old, shape=shape, existing=existing):
+                i = st.meta["i"]
+                handle_, store_ = st.meta["handle"], st.meta["store"]
+                cf = lambda extra: None
+                if st.panic or st.bound_hit:
+                    ob.total += 1
+                    ob.failures.append(dict(kind="panic" if st.panic else "bound", where="MemfsFile", cex=None, shape=shape,
+                                            desc="C07: handle operation panics/loops: %s" % (st.panic or st.bound_hit)))
+                    return
+                if i >= 0:
+                    op = seq[i]
+                    written = list(init)
+                    for c in chunks[:i + 1]:
+                        if c:
+                            written += c
+                    if i < len(chunks) and chunks[i] is None or op == "D":
+                        pass
+                    hd = ex.deref(st, handle_)
+                    stored_now = ex.deref(st, store_.stored).fields[1].items
+                    if op.startswith("W"):
+                        r = st.retval
+                        ob.prove(ex, st, "C07: write accepts the whole chunk %s" % (shape,),
+                                 B(r.variant == 0 and r.fields[0].concrete and r.fields[0].v == len(chunks[i])))
+                    if op in ("F", "D"):
+                        present = ex.decide(st, b_and(store_.has_entry, store_.has_file))
+                        entry = ex.decide(st, store_.has_entry)
+                        if present:
+                            same = B(len(stored_now) == len(written)) if len(stored_now) != len(written) else b_and(
+                                *[__import__("lib.mirsym.values", fromlist=["bv_bin"]).bv_bin("Eq", a, b) for a, b in zip(stored_now, written)])
+                            ob.prove(ex, st, "C07: after %s the stored file holds exactly the bytes written so far (handle %s, ops %s)" % (
+                                "flush" if op == "F" else "drop", "append" if existing else "write", "".join(shape)), same) or \
+                                ob.failures[-1].update(shape=shape, existing=existing, where="MemfsFile::sync")
+                        elif not entry and op == "F":
+                            ob.prove(ex, st, "C07: flush reports an error when the target entry no longer exists", B(st.retval.variant == 1))
+                i += 1
+                if i >= len(seq):
+                    return
+                op = seq[i]
+                if op == "F":
+                    st2 = ex.start(f_flush, [handle_])
+                elif op == "D":
+                    st2 = ex.start(f_drop, [handle_])
+                else:
+                    st2 = ex.start(f_write, [handle_, BoxRef(M.VecM(chunks[i]))])
+                st2.pc = list(st.pc)
+                st2.meta = dict(i=i, handle=handle_, store=store_)
+                return [st2]
+
+            from .mirsym.engine import State
+            st0 = State()
+            st0.done = True
+            st0.meta = dict(i=-1, handle=handle, store=store)
+            ex.explore(st0, on_path)
+            if len(ob.samples) < 3 and len(shape) == max_ops:
+                ob.samples.append(dict(ops="".join(shape) + "D", handle="append" if existing else "write"))
+    # replay: one native test per distinct failing shape
+    seen = set()
+    for f in ob.failures:
+        if f["kind"] == "bound":
+            unit["status"], unit["why"] = "inconclusive", f["desc"]
+            continue
+        key = (f.get("shape"), f.get("existing"))
+        if key in seen or len(seen) >= 3 or f.get("shape") is None:
+            continue
+        seen.add(key)
+        body, written = "", ""
+        for oi, op in enumerate(f["shape"]):
+            if op == "F":
+                body += '        h.flush().unwrap();\n        assert_eq!(vfs.read_all("/f").unwrap(), "%s", "C07: contents at flush");\n' % ((("o" if f["existing"] else "") + written))
+            else:
+                chunk = "abcdefgh"[oi * 2:oi * 2 + int(op[1:])]
+                written += chunk
+                body += '        assert_eq!(h.write(b"%s").unwrap(), %d);\n' % (chunk, len(chunk))
+        src = '''use rivia::prelude::*;
+#[test]
+fn replay_persist() {
+    // %s
+    let vfs = Memfs::new();
+    vfs.write_all("/f", "o").unwrap();
+    {
+        let mut h = vfs.%s("/f").unwrap();
+%s    }
+    assert_eq!(vfs.read_all("/f").unwrap(), "%s", "C07: contents after drop");
+}
+''' % (f["desc"], "append" if f["existing"] else "write", body, ("o" if f["existing"] else "") + written)
+        r = native_test(src, ctx.logdir, "c07p_%d" % len(seen))
+        reproduced = r["ran"] and r["failed"] > 0
+        rec = dict(kind=f["kind"], desc='"%s"' % f["desc"], where=f.get("where", "MemfsFile"), reproduced=reproduced,
+                   replay_outcome=r["out"][-400:])
+        if reproduced:
+            rec["replay"] = save_replay(prop, "c07_persist", src, f["desc"], dict(failed=r["failed"]))
+        unit["failures"].append(rec)
+        unit["status"] = "violation"
+    return finish(unit, ex, solver, ob, t0, dict(models_used="Memfs seen through its write guard as an abstract store (entry present?, stored file present?), Vec<u8> as a byte list, error formatting opaque"))
+
+
+@job("c07_persist", ["C07", "C12"], "quick",
+     functions=["<MemfsFile as io::Write>::{write,flush}", "MemfsFile::sync", "<MemfsFile as Drop>::drop (real MIR)"],
+     bounds="every sequence of <= 3 operations from {flush, write of 0|1|2 symbolic bytes} followed by drop, on a write handle and on an append handle with one existing byte; target entry / stored file each present or not")
+def c07_persist(ctx, prop):
+    return run_persist(ctx, prop, 3, 2)
